@@ -25,6 +25,45 @@ claim("C01", "proof",
       TIE + " Partial: the splitter refinement lemmas are still open (see Props/C01.lean header).",
       "Lean 4 theorems over a hand-written model + differential correspondence + executed abstract specification as oracle", "§4 C01")
 
+claim("C02", "proof",
+      "Theorems: the fast-path eligibility test is exactly the documented domain; per-bound agreement of output_parts with the general "
+      "output rule whenever the start-offset vector and the range vector describe the same fields (all records, all bounds). The scan "
+      "equivalence (memchr loop with early stop vs find_iter) is not yet a theorem; the end-to-end statement is carried by the direct oracle: "
+      "both entry points on the same Opt, in-process, bounded-exhaustive + random.",
+      TIE, "Lean 4 theorems over a hand-written model + differential correspondence + two-implementation oracle", "§4 C02")
+claim("C03", "proof",
+      "Theorems: -M eligibility is the documented domain; empty-record and early-stop silence rules of the chunk machine. The field-by-field "
+      "refinement to the per-record specification is not yet a theorem; the statement is carried by the direct oracle (streaming entry point vs "
+      "read_and_cut_str on the same Opt, admissible inputs, exhaustive small inputs × segmentations + random large-field inputs).",
+      TIE, "Lean 4 theorems over a hand-written model + differential correspondence + two-implementation oracle", "§4 C03")
+claim("C04", "proof",
+      "Theorems over the chunk machine (model of cut_bytes_stream over bytes tagged with read boundaries): printing a field in two pieces "
+      "equals printing it at once under NoAdjFillers (the invariant the bounds parser guarantees), nothing but counters crosses a chunk "
+      "boundary; lifted to whole-run chunk independence where proved (see evidence: theorem list). Direct oracle: EVERY segmentation of every "
+      "small input vs the one-segment reader, on the implementation.",
+      TIE, "Lean 4 theorems (invariant / simulation over a tagged-byte machine) + exhaustive segmentation oracle", "§4 C04")
+claim("C09", "proof",
+      "Theorems for all n, all bounds: try_into_range (hence every engine's per-bound output: general, fast, bytes, and the spec's resolve) is "
+      "invariant under rewriting any subset of negative indexes -k to n+1-k; -1 is the last part, -n the first. Direct oracle: implementation on "
+      "B vs B' in every mode.",
+      TIE + " One known finding (line-at-a-time straddling range with fallback) is listed in KNOWN_FINDINGS.txt.",
+      "Lean 4 theorems (omega over Int) lifted through the output loops + metamorphic oracle", "§4 C09")
+claim("C10", "proof",
+      "Theorems for all inputs and options: scratch buffers never influence a record (general path and fast lane), records(A‖B) = records(A) ++ "
+      "records(B) when A ends with EOL, hence run(A‖B) = run(A) then run(B), and = run(A) when A fails — for read_and_cut_str (incl. -c, --json) "
+      "and the fast lane; -M by the oracle only so far. Direct oracle: A, B, A‖B on the implementation, and cut_str with dirty scratch.",
+      TIE, "Lean 4 theorems (induction over records, Run.seq algebra) + metamorphic oracle", "§4 C10")
+claim("C13", "proof",
+      "Theorems, one per engine and per branch (general, fast, bytes, -M, -l line-at-a-time, range expansion, complement): resolvable ⇒ data and "
+      "never a fallback; else own fallback verbatim; else generic; else the run fails; unresolvable ⇔ the specification cannot resolve. Direct "
+      "oracle: implementation vs executed specification in every mode, any subset of bounds unresolvable.",
+      TIE + " Two known findings (ranges straddling the end with a fallback, in -l line-at-a-time and -M) are listed in KNOWN_FINDINGS.txt.",
+      "Lean 4 theorems (decision logic stated outright) + executed specification as oracle", "§4 C13")
+claim("C15", "proof",
+      "Theorems: UserBounds::complement equals the specification's complementBound for every resolvable bound and n (1…lo-1 then hi+1…n), order "
+      "kept (flatMap), all-covering lists fail. Direct oracle: -m B vs the rewritten list, on the implementation, in -f/--json/-l with -j/-r.",
+      TIE, "Lean 4 theorems (arithmetic of ranges) + metamorphic oracle", "§4 C15")
+
 NOT_YET = "check under construction in this session (model, harness and driver exist; the property's check is not registered yet)"
 
 
